@@ -1,5 +1,5 @@
 (* Model/SighashBridge.v — definitions (no proofs) that connect Model/Sighash.v with Spec/SighashCore.v:
-   the model's transaction read as Core's CTransaction, and the exclusion predicates of the two known findings.
+   the model's transaction read as Core's CTransaction, and the exclusion predicate of the known finding.
    Kept apart from Proofs/SighashP.v so that the extraction does not depend on any proof. *)
 From PV Require Import Base.Bytes Base.Outcome Model.Sighash Spec.SighashCore.
 Local Open Scope N_scope.
@@ -11,16 +11,8 @@ Definition to_core_out (o : txout) : CTxOut := mkCTxOut (to_value o) (to_script 
 Definition to_core (t : tx) : CTransaction :=
   mkCTx (tx_version t) (map to_core_in (tx_ins t)) (map to_core_out (tx_outs t)) (tx_lock t).
 
-(* ---- exclusion predicates (one per known finding) --------------------------------------------- *)
-(* (1) a one-byte "signature" whose minimal push is OP_1..OP_16 / OP_1NEGATE: pycoin deletes that opcode,
-       Core deletes the direct push 01 xx *)
-Definition sig_pattern_excluded (sig : bytes) : bool :=
-  match sig with
-  | [b] => ((1 <=? b2n b) && (b2n b <=? 16)) || (b2n b =? 129)
-  | _ => false
-  end.
-
-(* (2) the script has an undecodable instruction and pycoin's walk, which goes on behind it, removes
+(* ---- exclusion predicate of the known finding --------------------------------------------------- *)
+(* the script has an undecodable instruction and pycoin's walk, which goes on behind it, removes
        something there.  `undecodable_tail` = the script from its first undecodable instruction on. *)
 Fixpoint undecodable_tail_fuel (fuel : nat) (s : bytes) : bytes :=
   match fuel with
